@@ -13,6 +13,7 @@ import (
 
 	"github.com/ngicks/gokugen/def"
 	"github.com/ngicks/gokugen/dispatcher/workerpool"
+	"github.com/ngicks/und/option"
 
 	"verifharness/internal/rng"
 	"verifharness/internal/sim"
@@ -92,7 +93,9 @@ func poolExec(h sim.History) []string {
 		case "rem":
 			n, _ := strconv.Atoi(tok[1])
 			w.d.WorkerPool.Remove(n)
-		case "disp":
+		case "disp", "dispd":
+			// dispd: the task carries a deadline that is already over; the work function ignores its context
+			overdue := tok[0] == "dispd"
 			ctx, cancel := context.WithCancel(context.Background())
 			done := &atomic.Bool{}
 			w.mu.Lock()
@@ -102,7 +105,11 @@ func poolExec(h sim.History) []string {
 			w.started.Add(1)
 			go func() {
 				_, err := w.d.Dispatch(ctx, func(context.Context) (def.Task, error) {
-					return def.Task{Id: "t", WorkId: "w"}, nil
+					t := def.Task{Id: "t", WorkId: "w"}
+					if overdue {
+						t.Deadline = option.Some(time.Now().Add(-time.Second))
+					}
+					return t, nil
 				})
 				if err != nil {
 					w.cancelled.Add(1)
@@ -155,8 +162,10 @@ func genPoolHistory(r *rng.R, length int) sim.History {
 	h := sim.History{Header: "new pool", Ops: []string{"add " + strconv.Itoa(1+r.Intn(3))}}
 	for k := 0; k < length; k++ {
 		switch w := r.Intn(100); {
-		case w < 40:
+		case w < 30:
 			h.Ops = append(h.Ops, "disp")
+		case w < 40:
+			h.Ops = append(h.Ops, "dispd")
 		case w < 65:
 			h.Ops = append(h.Ops, "fin")
 		case w < 75:
